@@ -457,6 +457,7 @@ func propCases(prop string, g *Gen, n int) []*Case {
 			add(&Case{R: r, Obs: o, Oracles: []string{"C06wf"}, Hops: hops})
 		}
 	case "C06R":
+		g.OpErrorArrow = true
 		// regular strings: congruence with the plain rendering, refusal of unsupported verbs
 		g.Tokens = true
 		obs := names("red-v", "red+v", "fmt-v", "fmt+v")
@@ -621,6 +622,7 @@ func propCases(prop string, g *Gen, n int) []*Case {
 			add(&Case{R: r, Refs: refs, Obs: obs, Oracles: []string{"C08"}})
 		}
 	case "C09":
+		g.OpErrorArrow = true
 		obs := names("text", "fmt-v", "fmt+v")
 		obs = append(obs, Obs{Name: "hop", Procs: knowing1, Sub: names("text", "fmt-v", "fmt+v")})
 		for _, r := range enumPairs(g) {
